@@ -87,6 +87,14 @@ def _values(nums: list[Any], k: int) -> list[Any]:
     return out
 
 
+_NCOMP = (3, 2, 3, 2, 1, 3)
+
+
+def _ncomp(recipe: list[Any], idx: int) -> int:
+    """Number of components written out for the idx-th generated vector (shorter vectors are zero-padded by the library)."""
+    return _NCOMP[(recipe[idx % len(recipe)][3] + idx) % len(_NCOMP)]
+
+
 def judge_law_pair(mod: Any, pair: Any, recipe: list[Any]) -> tuple[list[tuple[str, str]], dict[str, Any]]:
     # pylint: disable=too-many-locals
     import sympy
@@ -94,12 +102,14 @@ def judge_law_pair(mod: Any, pair: Any, recipe: list[Any]) -> tuple[list[tuple[s
     fname, f, gname, g, py, px, rest = pair
     site = f"{short(mod.__name__)}:{gname}({fname})"
     vals = _values(recipe, 3 + 3 * len(rest) + 2)
-    v = Vector(vals[:3])
+    n0 = _ncomp(recipe, 0)
+    vals[n0:3] = [sympy.S.Zero] * (3 - n0)
+    v = Vector(vals[:n0])
     kwargs: dict[str, Any] = {}
     pos = 3
     for name, ann in rest:
         if ann == "Vector":
-            kwargs[name] = Vector(vals[pos:pos + 3])
+            kwargs[name] = Vector(vals[pos:pos + _ncomp(recipe, pos)])
             pos += 3
         else:
             kwargs[name] = abs(vals[pos]) + 1
@@ -208,10 +218,11 @@ def judge_calc_pair(mod: Any, pair: Any, recipe: list[Any]) -> tuple[list[tuple[
     if dy is None:
         return [], {"status": "unguarded-vector"}
     comps, si_in = [], []
-    for i in range(3):
+    for i in range(_ncomp(recipe, 0)):
         q, si = _quantity(dy, vals[i], recipe[i][4], recipe[i][6])
         comps.append(q)
         si_in.append(si)
+    si_in += [sympy.S.Zero] * (3 - len(si_in))
     kwargs: dict[str, Any] = {}
     pos = 3
     for name, ann in rest:
@@ -220,7 +231,7 @@ def judge_calc_pair(mod: Any, pair: Any, recipe: list[Any]) -> tuple[list[tuple[
             return [], {"status": "unguarded-parameter"}
         if ann == "QuantityVector":
             kwargs[name] = QuantityVector([_quantity(d, vals[pos + j], recipe[(pos + j) % len(recipe)][5], recipe[(pos + j) % len(recipe)][7])[0]
-                for j in range(3)])
+                for j in range(_ncomp(recipe, pos))])
             pos += 3
         elif ann == "Quantity":
             kwargs[name] = _quantity(d, abs(vals[pos]) + 1, recipe[pos % len(recipe)][4], recipe[pos % len(recipe)][6])[0]
@@ -244,12 +255,142 @@ def judge_calc_pair(mod: Any, pair: Any, recipe: list[Any]) -> tuple[list[tuple[
     return out, {"status": "ok"}
 
 
+# ---- calculate function against the module's own law function ---------------------------------------
+
+
+def calc_law_links(mod: Any) -> list[Any]:
+    """(cname, calc, lname, law, vector/shared params, scalar params held by module-level symbols).
+
+    calculate_<X> is linked to <X>_law / <X>_definition when every parameter of the law function is a parameter of the
+    calculate function (same name) and every other calculate parameter <s>_ is a Quantity whose module attribute <s> is
+    the symbol the law function leaves free."""
+    import sympy
+    funcs = dict(public_functions(mod))
+    out = []
+    for cname, calc in funcs.items():
+        if not cname.startswith("calculate_"):
+            continue
+        csig = inspect.signature(_inner(calc))
+        cparams = {p.name: p for p in csig.parameters.values()}
+        anns = {n: _ann(p) for n, p in cparams.items()}
+        if "QuantityVector" not in anns.values() and _ann_ret(csig) != "QuantityVector":
+            continue
+        stem = cname[len("calculate_"):]
+        stem = ALIASES.get(stem, stem)
+        for lname, law in funcs.items():
+            if _stem(lname) != stem:
+                continue
+            lsig = inspect.signature(_inner(law))
+            lparams = list(lsig.parameters)
+            if not lparams or any(lp not in cparams for lp in lparams):
+                continue
+            scalars, ok = [], True
+            for n, p in cparams.items():
+                if n in lparams:
+                    continue
+                if p.default is not inspect.Parameter.empty:
+                    continue
+                sym = getattr(mod, n.rstrip("_"), None)
+                if anns[n] != "Quantity" or not isinstance(sym, sympy.Symbol):
+                    ok = False
+                    break
+                scalars.append((n, sym))
+            if ok:
+                out.append((cname, calc, lname, law, [(n, anns[n]) for n in lparams], scalars))
+    return out
+
+
+def judge_calc_vs_law(mod: Any, link: Any, recipe: list[Any]) -> tuple[list[tuple[str, str]], dict[str, Any]]:
+    # pylint: disable=too-many-locals,too-many-branches
+    import sympy
+    from sympy.physics.units import Quantity as SymQuantity
+    from symplyphysics import QuantityVector, Vector
+    from symplyphysics.core.symbols.symbols import DimensionSymbol
+    from .c02 import si_value
+    cname, calc, lname, law, lparams, scalars = link
+    site = f"{short(mod.__name__)}:{cname}~{lname}"
+    spec = decorator_specs(calc)["inputs"]
+
+    def dim_of(pname: str) -> Any:
+        gd = spec.get(pname)
+        if gd is None:
+            return None
+        return gd.dimension if isinstance(gd, DimensionSymbol) else gd
+
+    vals = _values(recipe, 3 * len(lparams) + len(scalars) + 2)
+    pos = 0
+    cargs: dict[str, Any] = {}
+    largs: dict[str, Any] = {}
+    shown: dict[str, str] = {}
+    for n, ann in lparams:
+        d = dim_of(n)
+        if d is None:
+            return [], {"status": "unguarded-parameter"}
+        if ann == "QuantityVector":
+            comps, sis = [], []
+            for j in range(_ncomp(recipe, pos)):
+                q, si = _quantity(d, vals[pos + j], recipe[(pos + j) % len(recipe)][4], recipe[(pos + j) % len(recipe)][6])
+                comps.append(q)
+                sis.append(si)
+            pos += 3
+            cargs[n] = QuantityVector(comps)
+            largs[n] = Vector(sis)
+            shown[n] = str([str(c.scale_factor) + " " + str(c.dimension.name) for c in comps])
+        elif ann == "Quantity":
+            q, si = _quantity(d, abs(vals[pos]) + 1, recipe[pos % len(recipe)][4], recipe[pos % len(recipe)][6])
+            pos += 1
+            cargs[n] = q
+            largs[n] = si
+            shown[n] = f"{q.scale_factor} {q.dimension.name}"
+        else:
+            return [], {"status": "unsupported-parameter"}
+    sub: dict[Any, Any] = {}
+    for n, sym in scalars:
+        d = dim_of(n)
+        if d is None:
+            return [], {"status": "unguarded-parameter"}
+        q, si = _quantity(d, abs(vals[pos]) + 1, recipe[pos % len(recipe)][5], recipe[pos % len(recipe)][7])
+        pos += 1
+        cargs[n] = q
+        sub[sym] = si
+        shown[n] = f"{q.scale_factor} {q.dimension.name}"
+    try:
+        got = calc(**cargs)
+    except Exception as exc:  # pylint: disable=broad-except
+        return [], {"status": f"raised:{type(exc).__name__}"}
+    try:
+        want = law(**largs)
+    except Exception as exc:  # pylint: disable=broad-except
+        return [], {"status": f"law-raised:{type(exc).__name__}"}
+    gcomps = list(got.components) if hasattr(got, "components") else [got]
+    wcomps = list(want.components) if hasattr(want, "components") else [want]
+    n = max(len(gcomps), len(wcomps))
+    gcomps += [sympy.S.Zero] * (n - len(gcomps))
+    wcomps += [sympy.S.Zero] * (n - len(wcomps))
+    for i, (g, w) in enumerate(zip(gcomps, wcomps)):
+        try:
+            ww = sympy.sympify(w).xreplace(sub)
+            ww = ww.xreplace({q: si_value(q) for q in ww.atoms(SymQuantity)})
+            wv = sympy.N(ww, 30)
+            gv = sympy.N(si_value(g), 30)
+        except Exception:  # pylint: disable=broad-except
+            return [], {"status": "unevaluable"}
+        if not wv.is_number or not gv.is_number or wv.has(sympy.nan, sympy.zoo, sympy.oo) or gv.has(sympy.nan, sympy.zoo, sympy.oo):
+            return [], {"status": "unevaluable"}
+        if abs(gv - wv) > sympy.Float("1e-9") * (abs(gv) + abs(wv)) + sympy.Float("1e-25"):
+            return [(f"calc-differs-from-law:{site}",
+                f"{short(mod.__name__)}: {cname}({shown}) has SI component {i} = {sympy.N(gv, 15)}, but {lname} on the same SI "
+                f"values gives {sympy.N(wv, 15)}")], {"status": "ok"}
+    return [], {"status": "ok"}
+
+
 def run_module(modname: str, recipes: list[Any], rec: Recorder) -> None:
     try:
         mod = import_module(modname)
     except Exception:  # pylint: disable=broad-except
         return
-    for kind, pairs, judge in (("law", law_pairs(mod), judge_law_pair), ("calc", calc_pairs(mod), judge_calc_pair)):
+    for kind, pairs, judge in (("law", law_pairs(mod), judge_law_pair), ("calc", calc_pairs(mod), judge_calc_pair),
+        ("calc-vs-law", calc_law_links(mod), judge_calc_vs_law)):
         for pair in pairs:
             rec.count(f"vector-{kind}-pairs")
             for recipe in recipes:
@@ -257,6 +398,11 @@ def run_module(modname: str, recipes: list[Any], rec: Recorder) -> None:
                 for key, what in res:
                     rec.violation(key, what, {"kind": "vector-" + kind, "module": modname, "f": pair[0], "g": pair[2], "recipe": recipe})
                 site = f"{short(modname)}:{pair[2]}({pair[0]})"
+                if info.get("status") == "ok":
+                    for fn_name in (pair[0], pair[2]):
+                        cov = rec.notes.setdefault("vector_covered_functions", [])
+                        if f"{short(modname)}:{fn_name}" not in cov:
+                            cov.append(f"{short(modname)}:{fn_name}")
                 rec.case({"pair": site, "r": recipe}, nontrivial=info.get("status") == "ok",
                     labels=[f"vector-{kind}", f"vector-{kind}:" + str(info.get("status")).split(":")[0]],
                     sample={"pair": site, "kind": kind} if info.get("status") == "ok" and len(rec.samples) < 2 else None)
@@ -264,7 +410,8 @@ def run_module(modname: str, recipes: list[Any], rec: Recorder) -> None:
 
 def replay(case: dict[str, Any]) -> list[tuple[str, str]]:
     mod = import_module(case["module"])
-    finder, judge = (law_pairs, judge_law_pair) if case["kind"] == "vector-law" else (calc_pairs, judge_calc_pair)
+    finder, judge = {"vector-law": (law_pairs, judge_law_pair), "vector-calc": (calc_pairs, judge_calc_pair),
+        "vector-calc-vs-law": (calc_law_links, judge_calc_vs_law)}[case["kind"]]
     for pair in finder(mod):
         if pair[0] == case["f"] and pair[2] == case["g"]:
             return judge(mod, pair, [tuple(r) for r in case["recipe"]])[0]
